@@ -8,6 +8,7 @@ package c15
 
 import (
 	"context"
+	"encoding/base64"
 	"encoding/hex"
 	"encoding/json"
 	"errors"
@@ -506,7 +507,12 @@ func (c *clientTask) RunEvent(time.Time) {
 		t.TsigSecret = secrets()
 		q.SetTsig(keyName, sc.Alg, uint16(sc.Fudge), time.Now().Unix())
 	}
-	if sc.EmptyKeys && t.TsigSecret == nil {
+	if t.TsigSecret != nil && len(t.TsigSecret) > 0 && sc.RunSeed%4 == 0 {
+		// the keys come through a provider of the application's own
+		t.TsigProvider, t.TsigSecret = hmacProvider(t.TsigSecret), nil
+		x.res.Bump("cover.transfer_tsig_provider")
+	}
+	if sc.EmptyKeys && t.TsigSecret == nil && t.TsigProvider == nil {
 		t.TsigSecret = map[string]string{}
 		x.res.Bump("fault.receiver_with_empty_secret_map")
 	}
@@ -569,6 +575,38 @@ func (c *clientTask) RunEvent(time.Time) {
 	}
 	x.chClosed, x.closedT, x.connClosedAtChClose = true, time.Now(), closedNow
 	k.Unlock()
+}
+
+// hmacProvider is a TsigProvider with its own HMAC code (oracle.HMAC).
+type hmacProvider map[string]string
+
+//go:norace
+func (p hmacProvider) Generate(msg []byte, t *dns.TSIG) ([]byte, error) {
+	sec, ok := p[t.Hdr.Name]
+	if !ok {
+		return nil, dns.ErrSecret
+	}
+	raw, err := base64.StdEncoding.DecodeString(sec)
+	if err != nil {
+		return nil, err
+	}
+	m := oracle.HMAC(dns.CanonicalName(t.Algorithm), raw, msg)
+	if m == nil {
+		return nil, dns.ErrKeyAlg
+	}
+	return m, nil
+}
+
+//go:norace
+func (p hmacProvider) Verify(msg []byte, t *dns.TSIG) error {
+	m, err := p.Generate(msg, t)
+	if err != nil {
+		return err
+	}
+	if hex.EncodeToString(m) != strings.ToLower(t.MAC) {
+		return dns.ErrSig
+	}
+	return nil
 }
 
 // dial answers the connection attempt of Transfer.In (socket seam).
